@@ -70,6 +70,8 @@ class C06(E1Check):
     def op_list(self, cfg):
         # PF is dated after the virtual clock: a point without a time (P6, stamped "now") is then out of order
         extra = [("insert", "PF", None, False, "db"), ("insert", "P6", None, False, "db"), ("insert", "PH", None, False, "db")]
+        if "closure" in cfg["name"] and self.tier == "quick":
+            extra = []  # the quick fixpoint run uses the standard alphabet and the faults only
         return std_ops(self.alpha, cfg, self.tier) + extra + fault_ops(self.alpha, self.tier)
 
     def enabled(self, op, contents, cfg, history):
